@@ -107,6 +107,18 @@ func resolveComputedFields(env *Environment, errorSink *validation.ErrorSink) *E
 
 			errorSink.Add(validationError(t, "cannot cast from from '%s' to '%s'", TypeToShortSyntax(innerType, true), TypeToShortSyntax(t.Type, true)))
 			return t
+		case *UnaryExpression:
+			t = self.DefaultRewrite(t, context).(*UnaryExpression)
+			operandType := t.Expression.GetResolvedType()
+			if operandType == nil {
+				return t
+			}
+			// negation is defined for the operands that the arithmetic operators are defined for
+			kind, isPrimitive := GetKindIfPrimitive(operandType)
+			if !isPrimitive || (kind != PrimitiveKindInteger && kind != PrimitiveKindFloatingPoint && kind != PrimitiveKindComplexFloatingPoint) {
+				errorSink.Add(validationError(t, "operator not defined for an operand of type '%s'", TypeToShortSyntax(operandType, true)))
+			}
+			return t
 		case *BinaryExpression:
 			t = self.DefaultRewrite(t, context).(*BinaryExpression)
 			t = shallowClone(t)
